@@ -358,7 +358,11 @@ func Discharge(obls []*Oblig, dir string, timeoutS int, par int, unanimous bool)
 					// path instead of five); the full race only when that is not conclusive
 					var st, sv, md string
 					var ms int64
-					if qfs != "" && !unanimous {
+					// (thorough tier: all solvers are heard on every query - except for obligations split into more
+					// than 24 paths, where waiting for three solvers on each of hundreds of easy queries takes
+					// tens of minutes; there the first definite answer counts as in the quick tier)
+					un := unanimous && len(o.disj) <= 24
+					if qfs != "" && !un {
 						t0 := time.Now()
 						sp := solvers[0]
 						sp.name += "+qf"
@@ -369,7 +373,7 @@ func Discharge(obls []*Oblig, dir string, timeoutS int, par int, unanimous bool)
 					}
 					if st == "" {
 						var ms2 int64
-						st, sv, md, ms2 = solveRace(dir, fmt.Sprintf("%s_p%d", base, k), sc, timeoutS, unanimous, qfs)
+						st, sv, md, ms2 = solveRace(dir, fmt.Sprintf("%s_p%d", base, k), sc, timeoutS, un, qfs)
 						ms += ms2
 					}
 					results[k] = pres{st, sv, md, ms}
